@@ -144,6 +144,7 @@ def stage_steps(ctx):
             if not (t[4] and t[3] > 0):
                 ctx.nontrivial.add(("step", cls, t[4], b, min(t[2], 2), t[3] > 0, t[0] == t[1] + 2 * t[2] - t[3]))
     ctx.exhaustive = True
+    ctx.sample({"step": [24, 8, 4, 0, False, True], "impl": "rem 8 surveyed 8 complete"})
 
 
 def stage_multiday(ctx):
@@ -153,8 +154,8 @@ def stage_multiday(ctx):
         ctx.rng.shuffle(small)
         small = small[:2500]
     cases += small
-    cases += [CC.random_multiday(ctx.rng) for _ in range(ctx.pick(2500, 40000))]
-    cases += [CC.random_multiday(ctx.rng, big=True) for _ in range(ctx.pick(300, 4000))]
+    cases += [CC.random_multiday(ctx.rng) for _ in range(ctx.pick(5000, 150000))]
+    cases += [CC.random_multiday(ctx.rng, big=True) for _ in range(ctx.pick(600, 15000))]
     for cls in ("method", "component"):
         sub = cases if cls == "method" else cases[:: ctx.pick(6, 3)]
         for (c, res) in CC.correspond_multiday(ctx, sub, cls=cls):
@@ -167,7 +168,7 @@ def stage_multiday(ctx):
 
 def stage_days(ctx):
     cases = []
-    for size, n in (("tiny", ctx.pick(2500, 40000)), ("small", ctx.pick(2000, 30000)), ("big", ctx.pick(300, 5000))):
+    for size, n in (("tiny", ctx.pick(5000, 120000)), ("small", ctx.pick(4000, 90000)), ("big", ctx.pick(500, 12000))):
         cases += [CC.random_day(ctx.rng, size) for _ in range(n)]
     k = 0
     for (c, r, il) in CC.correspond_days(ctx, cases):
@@ -188,8 +189,8 @@ def stage_days(ctx):
             ctx.count("day:with-weather-abort")
         if n_nocrew:
             ctx.count("day:request-without-crew")
-    for (c, r, il) in []:
-        pass
+    for c in cases[:2]:
+        ctx.sample({"day": CC.case_json(c)})
     return cases
 
 
@@ -233,7 +234,7 @@ def stage_weather(ctx):
     """real WeatherLookup + Infrastructure.set_weather_index + check_weather + deploy_crews"""
     from harness.adapters import crew as C
 
-    n_cubes = ctx.pick(2, 8)
+    n_cubes = ctx.pick(3, 16)
     for cube in range(n_cubes):
         seed = ctx.rng.randrange(1 << 30)
         lats = [60.0, 20.0, 40.0] if cube % 2 == 0 else [10.0, 30.0, 50.0, 70.0]
